@@ -366,6 +366,14 @@ class Monitor(object):
                                 exp.add(b)
                             else:
                                 exp.discard(b)
+                for e in log:                       # entries kept behind the snapshot's position stay in force
+                    if e[1] > applied:
+                        kind, a, b = sim.cid_of_command(e[0])
+                        if kind == 2:
+                            if a == 1:
+                                exp.add(b)
+                            else:
+                                exp.discard(b)
                 exp.discard(nid)
                 if exp != actual and all(i in self.committed for i in range(2, applied + 1)):
                     self.rec('C10', 'node %d installed a snapshot of position %d carrying the member set %r; the membership commands up to that position define %r'
